@@ -176,3 +176,20 @@ def compoundW2P {ω} (ws : List (LLWcs ω)) (mapping : List Nat) (v : List ω) :
   else .ok (selectIdx (mappingInverse mapping (nInputsOf mapping)) pix)
 
 end Ndcube
+
+namespace Ndcube
+
+/-- `NDCube.combined_wcs`: the primary WCS alone when there are no extra coords, otherwise
+`CompoundLowLevelWCS(wcs, extra_coords.wcs, mapping = range(pixel_n_dim) + extra_coords.mapping)`. -/
+def combinedWcs {ω} (w : LLWcs ω) (ec : Option (LLWcs ω × List Nat)) : Except Err (LLWcs ω) :=
+  match ec with
+  | none => .ok w
+  | some (e, m) => compound [w, e] (List.range w.pixDim ++ m)
+
+/-- `NDCube.array_axis_physical_types`: for each array axis (array order) the physical types whose
+correlation-matrix column for that axis is set. -/
+def arrayAxisPhysicalTypes (corr : List (List Bool)) (pixDim : Nat) (types : List String) : List (List String) :=
+  ((List.range pixDim).map fun k =>
+    ((List.range types.length).filter fun i => corrAt corr i k).map fun i => types.getD i "").reverse
+
+end Ndcube
